@@ -102,7 +102,8 @@ def run(ctx):
     import jsight as J
     import check_c18 as E18
     sep_pool = [x.decode() for x in SEPS]
-    trail_pool = ["x", "GET /a", "TYPE @t", "}", "]", "200", "\"a\"", "{}", "URL /x\n  Path\n", "@t", ",", ":", "e1", "-"]
+    trail_pool = ["x", "GET /a", "TYPE @t", "}", "]", "200", "\"a\"", "{}", "URL /x\n  Path\n", "@t", ",", ":", "e1", "-",
+                  "x\n", "x\nGET /a", "x\r\n\r\ny", "x y\n", "x//y", "x/*c*/", "x #c\n", "xyz\n{}", "]\n", "}\n\n"]
     sl, smeta = [], []
     for _ in range(60 if quick else 3000):
         w = J.rand_rule_schema(rng, rng.randint(0, 3))
@@ -144,6 +145,21 @@ def run(ctx):
         if r != want and len(ctx.violations) < 40:
             info = {"kind": "enum", "S": etext, "sep": sep, "trail": t, "implementation": r, "expected": want, "direct": sep == ""}
             ctx.report("enum Len(%r + %r + %r) = %s, the enum rule ends at %s" % (etext[-50:], sep, t[:15], r, want), "enumlen:" + etext + sep + t, info, case=info)
+    # "Len returns an error when the text does not begin with a lexically complete schema": nothing-texts (empty, blanks, only a comment)
+    nothing = ["", " ", "\n", " \t\r\n ", "# only a comment", "# c\n", "  # c\n  ", "### block ###", "### block ###\n"]
+    for t, o in zip(nothing, vc.impl(["schema"], [json.dumps({"schema": t, "ops": [["len"]]}) for t in nothing])):
+        r = json.loads(o)[0]
+        ctx.evaluations += 1
+        if not r.startswith("E") and len(ctx.violations) < 40:
+            info = {"kind": "schema-nothing", "S": t, "implementation": r, "expected": "an error"}
+            ctx.report("schema Len(%r) = %s although the text does not begin with a schema" % (t, r), "schemalen-nothing:" + t, info, case=info)
+    enothing = ["", " ", "\n", " \t\r\n ", "// c", "// c\n", "/* c */"]
+    for t, o in zip(enothing, vc.impl(["enumrule"], [json.dumps({"text": t}) for t in enothing])):
+        r = json.loads(o)[1]
+        ctx.evaluations += 1
+        if not r.startswith("E") and len(ctx.violations) < 40:
+            info = {"kind": "enum-nothing", "S": t, "implementation": r, "expected": "an error"}
+            ctx.report("enum Len(%r) = %s although the text does not begin with an enum rule" % (t, r), "enumlen-nothing:" + t, info, case=info)
     cj = os.path.join(vc.ROOT, "corpus", "C14", "fixed-schema-len.json")
     if os.path.exists(cj):
         for c in json.load(open(cj)):
